@@ -160,3 +160,18 @@ Fixpoint loop_old (fuel : nat) (c : cst) : cst * outcome :=
         match o with Running => loop_old f c' | _ => (c', o) end
       else (c, Done)
   end.
+
+(* ---------- scheme/ocidir BlobPut: the stream goes to a temporary file while it is digested; the file is renamed to
+   blobs/<alg>/<hex of the computed digest> only if a declared digest names exactly the bytes read and a declared size
+   is their number.  The store maps digests (here: the bytes they name) to file contents; a failed put leaves the store
+   as it was (the temporary file is not under any digest) ---------- *)
+Inductive lres := LOk (d : bytes) (size : Z) | LDigest | LSize.
+Definition layout_put (declared : option bytes) (dsize : Z) (stream : bytes) (store : list (bytes * bytes))
+  : lres * list (bytes * bytes) :=
+  match declared with
+  | Some g => if negb (beq g stream) then (LDigest, store)
+              else if (0 <? dsize) && negb (zlen stream =? dsize) then (LSize, store)
+              else (LOk stream (zlen stream), (stream, stream) :: store)
+  | None => if (0 <? dsize) && negb (zlen stream =? dsize) then (LSize, store)
+            else (LOk stream (zlen stream), (stream, stream) :: store)
+  end.
